@@ -290,7 +290,7 @@ def work_samples(paths):
 
 def main(tier, seed):
     t0 = time.time()
-    n = 1000 if tier == "quick" else 30000
+    n = 1000 if tier == "quick" else 20000
     ev = Evidence()
     per = max(10, n // 48)
     ev.merge(run_pool(work_gen, [(seed, s, min(per, n - s)) for s in range(0, n, per)]))
